@@ -111,6 +111,16 @@ Theorem C09_model_passes : forall fs, wf_frames fs = true -> ok_writer fs (ts_wr
 Proof. exact writer_passes. Qed.
 Print Assumptions C09_model_passes.
 
+(* the video meta is shared state: parameter sets learned in-band are stored into it while the
+   muxer runs.  Over any sequence of (set-parameter-sets | frame) events, starting from the meta
+   the muxer was created with, every frame is carried with the SPS/PPS CURRENT when it was pushed
+   ([annotate]): in particular a key frame pushed after a late EvSet carries the new sets *)
+Theorem C09_model_passes_events : forall sps0 pps0 a evs, wf_mux_ev sps0 pps0 a evs = true ->
+  exists out, mux_events sps0 pps0 a evs = MuxBytes out /\
+              ok_muxa a (annotate sps0 pps0 evs) out = true.
+Proof. exact mux_events_passes. Qed.
+Print Assumptions C09_model_passes_events.
+
 Theorem C09_model_passes_mux : forall sps pps a cs, wf_mux a cs = true ->
   exists out, mux_all sps pps a cs = MuxBytes out /\ ok_mux sps pps a cs out = true.
 Proof. exact mux_passes. Qed.
@@ -131,10 +141,16 @@ Print Assumptions C09_audio_group_chain.
    implementation's segments accepts the model's: per segment PAT/PMT and continuity, video
    units = the carried NAL units in order (AUD/SPS/PPS layout, stamps), audio units = ADTS
    chains covering the source AAC frames in order, nothing else *)
-Theorem C09_model_passes_hls : forall sps pps a plan, wf_hplan a plan = true ->
-  ok_hls sps pps a (plan_videos plan) (plan_audios plan) (hls_model sps pps a plan) = true.
+Theorem C09_model_passes_hls : forall a plan, wf_hplan a plan = true ->
+  ok_hls a (plan_videos plan) (plan_audios plan) (hls_model a plan) = true.
 Proof. exact hls_passes. Qed.
 Print Assumptions C09_model_passes_hls.
+
+(* the structure-only oracle used for the end-to-end stream (no time stamps) is implied *)
+Theorem C09_model_passes_hls_es : forall a plan, wf_hplan a plan = true -> plan_audios plan = [] ->
+  ok_hls_es (plan_videos plan) (hls_model a plan) = true.
+Proof. exact hls_es_passes. Qed.
+Print Assumptions C09_model_passes_hls_es.
 
 (* non-vacuity: a key frame needing stuffing in its only packet, an audio frame, a
    two-packet frame with PTS+DTS beyond 2^33, an in-band SPS (dropped) — guards hold, oracles accept *)
@@ -159,10 +175,26 @@ Proof. vm_compute. repeat split; reflexivity. Qed.
 Example C09_nonvacuous_hls :
   let a := {| asc_obj := 2; asc_sidx := 4; asc_chan := 2 |} in
   let au n t := {| c_video := false; c_dts := t; c_pts := t; c_pay := repeat_byte 0x21 n |} in
-  let plan := [ [ HVideo {| c_video := true; c_dts := 0; c_pts := 40000000; c_pay := [0x65; 1; 2] |};
+  let vf sps c := HVideo {| a_sps := sps; a_pps := [0x68; 8]; a_c := c |} in
+  let plan := [ [ vf [] {| c_video := true; c_dts := 0; c_pts := 40000000; c_pay := [0x65; 1; 2] |};
                   HAudio 5 [au 3 0; au 200 23000000; au 7 46000000] ];
                 [ HAudio 9000 [au 1 70000000];
-                  HVideo {| c_video := true; c_dts := 40000000; c_pts := 40000000; c_pay := [0x41; 9] |} ] ] in
+                  vf [0x67; 9] {| c_video := true; c_dts := 40000000; c_pts := 40000000; c_pay := [0x65; 9] |} ] ] in
   wf_hplan a plan = true /\ length (plan_audios plan) = 4%nat /\
-  ok_hls [0x67; 9] [0x68; 8] a (plan_videos plan) (plan_audios plan) (hls_model [0x67; 9] [0x68; 8] a plan) = true.
+  ok_hls a (plan_videos plan) (plan_audios plan) (hls_model a plan) = true.
+Proof. vm_compute. repeat split; reflexivity. Qed.
+
+(* late parameter sets: the muxer is created with an empty meta, SPS/PPS arrive before the IDR *)
+Example C09_nonvacuous_events :
+  let a := {| asc_obj := 2; asc_sidx := 4; asc_chan := 2 |} in
+  let idr := {| c_video := true; c_dts := 0; c_pts := 0; c_pay := [0x65; 1; 2] |} in
+  let evs := [EvSet [0x67; 9] [0x68; 8]; EvFrame idr; EvSet [0x67; 7; 7] [0x68; 6]; EvFrame idr] in
+  wf_mux_ev [] [] a evs = true /\
+  map (fun af => spec_video_es (a_sps af) (a_pps af) (c_pay (a_c af)) 5) (annotate [] [] evs) =
+    [ [0;0;0;1;9;0xf0; 0;0;0;1;0x67;9; 0;0;0;1;0x68;8; 0;0;1;0x65;1;2];
+      [0;0;0;1;9;0xf0; 0;0;0;1;0x67;7;7; 0;0;0;1;0x68;6; 0;0;1;0x65;1;2] ] /\
+  match mux_events [] [] a evs with
+  | MuxBytes out => ok_muxa a (annotate [] [] evs) out = true
+  | MuxPanic => False
+  end.
 Proof. vm_compute. repeat split; reflexivity. Qed.
